@@ -2,10 +2,13 @@ mod alloc;
 mod alphabets;
 mod checks;
 mod engine;
+mod lockstep;
 mod logical;
 mod obs;
 mod ops;
 mod probes;
+mod refparser;
+mod refterm;
 mod report;
 
 use report::*;
